@@ -20,4 +20,11 @@ def C20_close_leaves_no_bootstrap_pending : Prop :=
     st.closing = false →
     ∀ x ∈ (step cfg st env (.close o)).1.unawares, ∀ j rest, x.st ≠ .bootConn j rest ∧ x.st ≠ .bootReq j rest
 
+/-- The Deferred returned by `close()` fires only after every connection has gone — INCLUDING the ephemeral
+    bootstrap connections.  The code violates this (known finding
+    `c20-close-deferred-fired-before-a-bootstrap-connection-had-gone`): only broker-client close Deferreds
+    are aggregated.  Counterexample and the part that holds: `AfkakProps/C20.lean`. -/
+def C20_close_awaits_bootstrap_connections : Prop :=
+  ∀ (cfg : Cfg) (evs : List (Env × Ev)), (Afkak.Monitor.C20.run (traceOf cfg {} evs)).bootFails = []
+
 end Afkak.Props.C20.Open
